@@ -313,7 +313,7 @@ MANIFEST_TEXT = {
                 "for BLOBs). Correspondence on real drivers with instrumented handlers on an asyncio loop; oracle c14Holds in Lean.",
         "note": "Handlers that assign from inside a handler are judged per assignment by Spec.Dev.nestedHolds (oracle only: the driver model has no re-entrant handlers); handlers declared with @on on a "
                 "driver class instantiated several times are judged by call counts. Partial: task start order is asyncio's FIFO (observed, not proved); Read handlers are modelled by their refresh effect (a definition of a BLOB property reads no value: Dev.refreshDef) and "
-                "judged on the real drivers by what every published set* message shows for an element with a refreshing Read handler (all element kinds but numbers). "
+                "judged on the real drivers by what every published set* message shows for an element with a refreshing Read handler (all element kinds but numbers). The default step of set_value (unless vetoed) and the guard of to_set_message (no update while not enabled) are translated from the source and tied to the model (Properties/Dec/Driver.lean). "
                 "Trusted: Lean kernel + standard axioms; harness.",
         "technique": "Lean 4 trace-equality theorem against a contract generator + instrumented-handler correspondence",
     },
@@ -343,7 +343,7 @@ MANIFEST_TEXT = {
                 "a function of the operation history alone; flags_follow_history (Properties/C07b.lean) proves that the driver model satisfies that specification after EVERY operation sequence on EVERY device (raising operations and out-of-range addresses included).",
         "note": "C07_emitted_valid carries two extra hypotheses found by the proof attempt: stored and incoming BLOB values have a format string (values.BLOB(b, None) makes the driver emit a "
                 "oneBLOB its own parser rejects; recorded in DESIGN.md as usage outside the property). The XML character level is C03's subject. Vector.enabled (own switch AND the group's) is translated from the source on every run and proved equal to the model's (Properties/Dec/Vector.lean). "
-                "Drivers are also built by subclassing (base class declaring the first groups, instantiated on its own first). Trusted: kernel, translator, harness.",
+                "Drivers are also built by subclassing (base class declaring the first groups, instantiated on its own first). The guards of to_def_message (delProperty while not enabled) and of message_from_client (all properties for an absent/empty name) are translated from the source and tied to the model (Properties/Dec/Driver.lean). Trusted: kernel, translator, harness.",
         "technique": "Lean 4 theorems over the driver model and the regenerated class table + differential correspondence with re-parse by the real library",
     },
     "C01": {
